@@ -191,10 +191,14 @@ pub struct FindReal {
 pub fn find_real(sc: &FindScenario, ctx: &mut Ctx, bins: &Path, sub: &str, cmd_token: &str) -> Result<FindReal, String> {
     let root = ctx.scratch.join(sub);
     let _ = std::env::set_current_dir(&ctx.scratch);
-    crate::sys::wipe(&root);
+    // (`sub` may be PARENT/A: the parent is emptied too)
+    match sub.split_once('/') {
+        Some((parent, _)) => crate::sys::wipe(&ctx.scratch.join(parent)),
+        None => crate::sys::wipe(&root),
+    }
     std::fs::create_dir_all(&root).map_err(|e| e.to_string())?;
     tree::build(&root, &sc.tree).map_err(|e| format!("cannot build tree: {e}"))?;
-    let dir = ctx.scratch.join(format!("{sub}.xc"));
+    let dir = ctx.scratch.join(format!("{}.xc", sub.replace('/', "-")));
     crate::sys::wipe(&dir);
     let _ = std::fs::create_dir_all(&dir);
     let lp = dir.join("child.log");
@@ -239,14 +243,16 @@ pub fn find(sc: &FindScenario, ctx: &mut Ctx, bins: &Path, cmd_token: &str) -> X
     if script_of(&sc.outcomes).is_none() || sc.ambient.nofile_headroom.is_some() || sc.real_children || sc.long_cwd.is_some() || sc.cwd_sub.is_some() {
         return Xc::NotComparable;
     }
-    let root = ctx.scratch.join("A");
+    // the two copies of the tree stand in parents of their own that hold nothing else: a link
+    // that leads out of the tree (`../..`) under a follow mode must find the same things there
+    let root = ctx.scratch.join("P1").join("A");
     let _ = std::env::set_current_dir(&ctx.scratch);
-    crate::sys::wipe(&root);
+    crate::sys::wipe(&ctx.scratch.join("P1"));
     if std::fs::create_dir_all(&root).is_err() || tree::build(&root, &sc.tree).is_err() {
         return Xc::Disagree("cannot build tree".into());
     }
     let fake = run_find_prebuilt(sc, ctx, root.clone());
-    let real = match find_real(sc, ctx, bins, "X", cmd_token) {
+    let real = match find_real(sc, ctx, bins, "P2/A", cmd_token) {
         Ok(r) => r,
         Err(e) => return Xc::Disagree(e),
     };
@@ -255,7 +261,16 @@ pub fn find(sc: &FindScenario, ctx: &mut Ctx, bins: &Path, cmd_token: &str) -> X
         return Xc::Differs(format!("{}: in-process status {:?}, executable {:?}; stderr [{}] vs [{}]", ctxs(), fake.status, real.status, crate::sys::lossy(&fake.stderr[..fake.stderr.len().min(200)]), crate::sys::lossy(&real.stderr[..real.stderr.len().min(200)])));
     }
     if fake.log.sink != real.stdout {
-        return Xc::Differs(format!("{}: standard output differs: {} bytes in-process, {} from the executable", ctxs(), fake.log.sink.len(), real.stdout.len()));
+        return Xc::Differs(format!(
+            "{}: standard output differs: {} bytes in-process [{}], {} from the executable [{}]; stderr in-process [{}], executable [{}]",
+            ctxs(),
+            fake.log.sink.len(),
+            crate::sys::show(&fake.log.sink[..fake.log.sink.len().min(400)]),
+            real.stdout.len(),
+            crate::sys::show(&real.stdout[..real.stdout.len().min(400)]),
+            crate::sys::lossy(&fake.stderr[..fake.stderr.len().min(300)]),
+            crate::sys::lossy(&real.stderr[..real.stderr.len().min(300)])
+        ));
     }
     let fake_children: Vec<(Vec<Vec<u8>>, PathBuf)> = fake
         .log
